@@ -415,6 +415,8 @@ def run(P, R, tier):
     _idx.check_class_select(P, R, "factor_analysis:FactorAnalysisBase._get_statistics_by_class_id")
     from ..engines import proto as _pp
     _pp.check_pairwise_folds(P, R, ['factor_analysis', 'ivector', 'utils'])
+    from ..engines import traps as _traps
+    _traps.check(P, R, ['factor_analysis', 'ivector'], scope='(factor_analysis:(FactorAnalysisBase\\._prepare_dask_input|ISVMachine\\.(fit|e_step|m_step)|JFAMachine\\.(fit|e_step_\\w|m_step_\\w)|reduce_iadd|_\\w+)|ivector:(IVectorMachine\\.fit|e_step|m_step|_\\w+))')
 
 
 EXPLANATION += ' Also: the halving tree is decided on a normalised form of the loop (length / half expressions, new list by comprehension or appended in a for loop, odd carry taken from the old list), in fit or in a fold helper; (COVER.pairs) neighbour-pairing reductions keep the unpaired element.'
